@@ -81,3 +81,82 @@ package stack
 //@   loop 0: invariant d == nil ==> pos(r) == old(pos(r))
 //@   loop 0: invariant d != nil ==> fresh(d) && len(d) == pos(r) - old(pos(r)) && len(d) > 0 && forall k :: 0 <= k && k < len(d) ==> d[k] == S(r.rd, old(pos(r)) + k) && d[k] != 10
 //@   loop 0: decreases N(r.rd) - pos(r)
+
+// ---- context.go: the line state machine ----------------------------------
+
+//@ pred NeedsCur(st state) = st == gotRoutineHeader || st == gotFunc || st == gotCreated || st == gotFileFunc || st == gotUnavail || st == gotRaceOperationHeader || st == gotRaceOperationFunc || st == gotRaceOperationFile
+//@ pred RaceG(st state) = st == gotRaceGoroutineHeader || st == gotRaceGoroutineFunc || st == gotRaceGoroutineFile
+//@ pred Inv(s *scanningState) = s != nil && s.Snapshot != nil && looking <= s.state && s.state <= betweenRaceGoroutines
+//@     && (forall i :: 0 <= i && i < len(s.Goroutines) ==> s.Goroutines[i] != nil)
+//@     && (forall i :: 0 <= i && i < len(s.Goroutines) ==> (s.Goroutines[i].First <==> i == 0))
+//@     && (s.state == looking ==> len(s.prefix) == 0)
+//@     && ((s.state == looking || s.state == gotRaceHeader1 || s.state == gotRaceHeader2) ==> s.Goroutines == nil)
+//@     && (NeedsCur(s.state) ==> len(s.Goroutines) >= 1)
+//@     && ((s.state == gotFunc || s.state == gotRaceOperationFunc) ==> len(s.Goroutines[len(s.Goroutines)-1].Stack.Calls) >= 1)
+//@     && (s.state == gotCreated ==> len(s.Goroutines[len(s.Goroutines)-1].CreatedBy.Calls) >= 1)
+//@     && (RaceG(s.state) ==> 0 <= s.goroutineIndex && s.goroutineIndex < len(s.Goroutines))
+//@     && (s.state == gotRaceGoroutineFunc ==> len(s.Goroutines[s.goroutineIndex].CreatedBy.Calls) >= 1)
+
+//@ func (*scanningState).scan
+//@   requires Inv(s)
+//@   modifies scanningState.* at s; Snapshot.Goroutines at s.Snapshot; E:*stack.Goroutine; Goroutine.*, Signature.*, Stack.*, Call.*, Func.*, Args.*, Arg.*
+//@   ensures Inv(s) && s.Snapshot == old(s.Snapshot)
+//@   ensures [doneAbsorbing C07] old(s.state) == done ==> !result0 && result1 == nil && s.state == done
+//@   ensures [errNotConsumed C07] result1 != nil ==> !result0
+//@   ensures [endsAtFirstBadLine C07] !result0 && result1 == nil && old(s.state) != looking ==> s.state == done
+//@   ensures [neverBackToLooking C02 C07] old(s.state) != looking ==> s.state != looking
+//@   ensures [lookingPassThrough C02] old(s.state) == looking ==> result1 == nil && (!result0 ==> s.state == looking)
+//@   ensures [consumedLeavesLooking C02] result0 ==> s.state != looking
+//@   ensures [growOnly C01 C10] len(s.Goroutines) >= old(len(s.Goroutines)) && len(s.Goroutines) <= old(len(s.Goroutines)) + 1 && forall i :: 0 <= i && i < old(len(s.Goroutines)) ==> s.Goroutines[i] == old(s.Goroutines[i])
+
+//@ func parseFunc
+//@   option assumed
+//@   requires c != nil
+//@   modifies Call.*, Func.*, Args.*, Arg.*
+//@   ensures result1 != nil ==> result0
+
+//@ func parseFile
+//@   option assumed
+//@   requires c != nil
+//@   modifies Call.*, Func.*
+//@   ensures result1 != nil ==> result0
+
+//@ func (*Func).Init
+//@   option assumed
+//@   requires f != nil
+//@   modifies Func.* at f
+
+//@ func (*Call).init
+//@   option assumed
+//@   requires c != nil
+//@   modifies Call.* at c
+
+//@ func isFramesElidedLine
+//@   option assumed
+//@   modifies nothing
+
+//@ func trimLeftSpace
+//@   option assumed
+//@   modifies nothing
+//@   ensures result == nil || subslice(result, s)
+
+//@ func unsafeString
+//@   option assumed
+//@   modifies nothing
+
+//@ func ScanSnapshot
+//@   requires in != nil && prefix != nil
+//@   requires 0 <= fetched(in) && fetched(in) <= N(in) && 0 <= wlen(prefix)
+//@   ensures [forwardedIsStreamPrefix C02 C09] wlen(prefix) >= old(wlen(prefix)) && (forall k :: 0 <= k && k < old(wlen(prefix)) ==> wdata(prefix)[k] == old(wdata(prefix))[k]) && (forall j :: old(wlen(prefix)) <= j && j < wlen(prefix) ==> wdata(prefix)[j] == S(in, old(fetched(in)) + (j - old(wlen(prefix)))))
+//@   ensures [nothingBeforeForwardedIsHeld C02] old(fetched(in)) + (wlen(prefix) - old(wlen(prefix))) + len(result1) <= fetched(in)
+//@   ensures [suffixIsTail C02 C07] forall k :: 0 <= k && k < len(result1) ==> result1[k] == S(in, fetched(in) - len(result1) + k)
+//@   at-return [bufferedInSuffix C02 C07] opts != nil && s != nil && s.state != looking ==> len(result1) >= r.w - r.r
+//@   at-return [noDumpAllForwarded C02] opts != nil && s != nil && s.state == looking && (result2 == nil || result2 == io.EOF) ==> old(fetched(in)) + (wlen(prefix) - old(wlen(prefix))) == fetched(in)
+//@   loop 0: invariant RI(r) && r.rd == in && Inv(s) && suffix == nil && fresh(r) && fresh(s) && fresh(s.Snapshot) && opts != nil
+//@   loop 0: invariant wlen(prefix) >= old(wlen(prefix)) && (forall k :: 0 <= k && k < old(wlen(prefix)) ==> wdata(prefix)[k] == old(wdata(prefix))[k])
+//@   loop 0: invariant forall j :: old(wlen(prefix)) <= j && j < wlen(prefix) ==> wdata(prefix)[j] == S(in, old(fetched(in)) + (j - old(wlen(prefix))))
+//@   loop 0: invariant err != nil ==> pos(r) == fetched(in)
+//@   loop 0: invariant old(fetched(in)) + (wlen(prefix) - old(wlen(prefix))) <= pos(r)
+//@   loop 0: invariant s.state == looking && (err == nil || err == io.EOF) ==> old(fetched(in)) + (wlen(prefix) - old(wlen(prefix))) == pos(r)
+//@   loop 0: decreases (err == nil ? 1 : 0)
+//@   loop 0: decreases N(in) - pos(r)
